@@ -21,7 +21,7 @@ CANON = {
 WILD = {
     'alias': 0.4, 'bare': 0.5, 'lower': 0.5, 'mixed': 0.1, 'end_terms': 0.35,
     'hoist': 1.0, 'comment': 0.12, 'dval': 0.45, 'sval': 0.5, 'fval': 0.5,
-    'explicit_push': 0.3, 'neg_d': 0.25, 'upper_prefix': 0.06,
+    'explicit_push': 0.3, 'neg_d': 0.25, 'upper_prefix': 0.08,
     'upper_hex': 0.3, 'ws': 0.5, 'size_sym': 0.5, 'plain_def_handle': 0.5,
     'multispace': 0.02, 'upper_s': 0.01,
 }
@@ -169,6 +169,14 @@ class Renderer:
 
     def byte(self, v: int, signed_ok=True, numeric_only=False) -> str:
         """one-byte operand"""
+        t = self._byte(v, signed_ok, numeric_only)
+        # "any letter case" holds for the value prefix of every operand kind
+        if self.chance('upper_prefix'):
+            self.features.add('upper_prefix')
+            t = t[0].upper() + t[1:]
+        return t
+
+    def _byte(self, v: int, signed_ok=True, numeric_only=False) -> str:
         if self.chance('dval') or (v < 128 and self.rng.random() < 0.5):
             if v < 128:
                 self.features.add('dbyte')
